@@ -160,6 +160,7 @@ package keeper
 //@   ensures err == nil ==> forall k `(Pair Bytes Bytes)` :: fst(k) != creator && fst(k) != moduleAddr("distribution") ==> bank.bal[k] == old(bank.bal)[k]   // C01: only_creator_pays
 //@   ensures err == nil ==> NextL1Sequences == old(NextL1Sequences) && NextOutputIndexes == old(NextOutputIndexes) && OutputProposals == old(OutputProposals)
 //@        && ProvenWithdrawals == old(ProvenWithdrawals) && TokenPairs == old(TokenPairs)        // C01,C10: nothing_prerecorded
+//@   ensures forall j uint64 :: j >= seqOr1(NextBridgeId) ==> BridgeConfigs[j] == old(BridgeConfigs)[j]   // C10: nothing_is_ever_stored_at_or_above_the_next_bridge_id
 //@   ensures $hookFailed ==> err != nil                                                           // C19: hook_failure_fails_creation
 //@   ensures err == nil ==> $hookCalls == 1 && $hookOuter && $hookName == "BridgeCreated" && $hookBridge == id && $hookCfg == req.Config        // C19: hook_sees_new_bridge
 //@   assigns BridgeConfigs[id], BatchInfos[(id, *)], NextBridgeId, bank.bal, auth.acc, perm.admin, events
